@@ -137,10 +137,12 @@ def check_plan(plan):
                 continue
             live.add(k)
             stack.extend(consumed.get(k, ()))
+        # does some fetch carry the statement's WITH clause along (C10-F1's mechanism: the CTE was also planned as a step of its own)?
+        shipped = any(type(s_).__name__ == 'FetchDataframeStep' and getattr(getattr(s_, 'query', None), 'cte', None) for s_ in steps)
         for i in range(n):
             if i not in live:
-                out.append(({'cond': 'dead-step-not-consumed-by-last', 'step': type(steps[i]).__name__, 'last': type(steps[-1]).__name__},
-                            {'index': i, 'nsteps': n}))
+                out.append(({'cond': 'dead-step-not-consumed-by-last', 'step': type(steps[i]).__name__, 'last': type(steps[-1]).__name__,
+                             'with_clause_in_fetch': bool(shipped)}, {'index': i, 'nsteps': n}))
     return out
 
 
